@@ -23,7 +23,7 @@ Import ListNotations.
 From CXV Require Import Gen.TokTy Gen.ParserTables Gen.TopLoop Parse.Balanced Parse.BalancedThms Parse.Declarator Parse.DeclSpec Parse.DeclThms
   Parse.EnumList Parse.Specs Parse.VarStmt Parse.FnTail Parse.Init Parse.Members Parse.MethodTail Parse.DeclStmt Parse.MemberStmt
   Parse.ConvOp Parse.OperatorMember Parse.OperatorFn Parse.MethodImpl Parse.FriendStmt Parse.BaseClause Parse.ClassEnum Parse.FinishClass
-  Parse.Bodies.
+  Parse.Bodies Parse.NsHeader.
 From CXV Require Parse.DispatchLang Gen.Dispatch.
 Open Scope N_scope.
 
@@ -98,6 +98,9 @@ Inductive item :=
 | INs (it : nitem)                          (* a statement of a namespace body *)
 | IFwd (acc : N) (key name : N)             (* forward declaration *)
 | IClass (acc : N) (c : cdef)
+| INamespace (inline : bool) (names : list N) (members : list item)     (* namespace a::b { ... } *)
+| IAlias (alias : N) (names : list N)                                   (* namespace a = b::c; (0: a leading '::') *)
+| IExtern (linkage : N) (members : list item)                           (* extern "C" { ... } *)
 with cdef :=
 | mkCD (m : mods) (key name : N) (anon td fi ex : bool) (bs : list base) (members : list item) (fin : fin_result).
 
@@ -142,6 +145,40 @@ Fixpoint body (k n fuel : nat) (dt : list (N * N)) (ctx : option (N * N)) (acc a
                 end
             end
         end in
+      (* a block opened at namespace scope: its statements, the closing brace, then on *)
+      let block := fun (mk : list item -> item) (r' : list tk) =>
+        match body k' n fuel dt None 0 aid r' with
+        | DErr e => DErr e
+        | DOk (members, aid2, r1) =>
+            match r1 with
+            | cb :: r2 => if is RBRACE cb then cont aid2 (mk members) r2 else DErr 3
+            | [] => DErr 4
+            end
+        end in
+      let namespace_stmt := fun (inline : bool) (r' : list tk) =>
+        match ns_header inline r' with
+        | DErr e => DErr e
+        | DOk (hd, r1) =>
+            if in_class then DErr 3                          (* namespace cannot be defined in a class *)
+            else match hd with
+                 | NsDef names => block (INamespace inline names) r1
+                 | NsAlias a names => cont aid (IAlias a names) r1
+                 end
+        end in
+      let declarations := fun (toks' : list tk) =>
+        class_stmt false toks'
+          (fun _ => match ctx with
+                    | Some (cls, dcls) =>
+                        match member_decl n fuel cls dcls toks' with
+                        | DErr e => DErr e
+                        | DOk (it, r') => cont aid (IC acc it) r'
+                        end
+                    | None =>
+                        match ns_decl n fuel toks' with
+                        | DErr e => DErr e
+                        | DOk (it, r') => cont aid (INs it) r'
+                        end
+                    end) in
       match toks with
       | [] => DOk ([], aid, [])
       | t :: r =>
@@ -149,6 +186,25 @@ Fixpoint body (k n fuel : nat) (dt : list (N * N)) (ctx : option (N * N)) (acc a
           | Some h =>
               if h =? H_on_block_end then DOk ([], aid, toks)
               else if h =? 0 then skip r
+              else if h =? H_parse_namespace then namespace_stmt false r
+              else if h =? H_parse_inline then
+                (* the translated handler: `inline namespace` or a declaration that starts with `inline` *)
+                match DispatchLang.run Dispatch.prog_parse_inline in_class t r with
+                | DispatchLang.OCall DispatchLang.F_namespace [DispatchLang.RTok (Some _); DispatchLang.RDox] [(3, DispatchLang.RBool true)] r1 =>
+                    namespace_stmt true r1
+                | DispatchLang.OCall DispatchLang.F_declarations [DispatchLang.RTok (Some x); DispatchLang.RDox] [] r1 => declarations (x :: r1)
+                | DispatchLang.OErr e => DErr e
+                | _ => DErr 3
+                end
+              else if h =? H_parse_extern then
+                (* the translated handler: a linkage block, or a declaration that starts with `extern` [string] *)
+                match DispatchLang.run Dispatch.prog_parse_extern in_class t r with
+                | DispatchLang.OOpenExtern (Some l) r1 => block (IExtern (kval l)) r1
+                | DispatchLang.OCall DispatchLang.F_declarations [DispatchLang.RTok (Some x); DispatchLang.RDox] [] r1 => declarations (x :: r1)
+                | DispatchLang.OCall _ _ _ _ => DErr 4            (* extern template: explicit instantiation *)
+                | DispatchLang.OErr e => DErr e
+                | _ => DErr 3
+                end
               else if h =? H_consume_static_assert then
                 match DispatchLang.run Dispatch.prog_consume_static_assert in_class t r with
                 | DispatchLang.ODone r' => skip r'
@@ -184,20 +240,7 @@ Fixpoint body (k n fuel : nat) (dt : list (N * N)) (ctx : option (N * N)) (acc a
                       end
                     else DErr 4
                 end
-          | None =>
-              class_stmt false toks
-                (fun _ => match ctx with
-                 | Some (cls, dcls) =>
-                     match member_decl n fuel cls dcls toks with
-                     | DErr e => DErr e
-                     | DOk (it, r') => cont aid (IC acc it) r'
-                     end
-                 | None =>
-                     match ns_decl n fuel toks with
-                     | DErr e => DErr e
-                     | DOk (it, r') => cont aid (INs it) r'
-                     end
-                 end)
+          | None => declarations toks
           end
       end
   end.
